@@ -255,8 +255,95 @@ def check_close_fault(case):
     return {"evaluations": 1, "nontrivial": ["x"] if raised else [], "labels": {"close-raised": raised}}
 
 
+# ---- tee: a failing source under concurrent consumers ---------------------------------------------
+
+
+class FaultError(RuntimeError):
+    """a source's own failure that happens to derive from RuntimeError"""
+
+
+_TEE_EXC = {"FaultError": FaultError, "RuntimeError": RuntimeError, "ValueError": ValueError, "KeyError": KeyError,
+            "LookupError": LookupError, "TypeError": TypeError}
+
+
+@st.composite
+def tee_concurrent_cases(draw, tier):
+    lock = draw(st.booleans())
+    return {"n": draw(st.integers(2, 3)), "length": draw(st.integers(1, 5)), "lock": lock,
+            "susp": draw(st.integers(1, 2)), "fault_at": draw(st.integers(1, 6)),
+            "exc": draw(st.sampled_from(sorted(_TEE_EXC))), "between": draw(st.booleans()),
+            "choices": draw(st.lists(st.integers(0, 3), max_size=50))}
+
+
+def check_tee_concurrent(case):
+    """Several tasks advance tee children of one class-based source that tolerates overlapping pulls; its k-th
+    pull fails.  Whatever else the children see, that very exception object reaches one of the consumers."""
+    from ..driver import Ctx, Scheduler, Lock, loop_mode, close_orphans
+    from ..values import Item
+    from .. import env
+    env.setup()
+    import asyncstdlib as a
+
+    ctx = Ctx("a")
+    planned = _TEE_EXC[case["exc"]]("planned source failure")
+    state = {"pulls": 0, "raised": False, "idx": 0}
+
+    class Source:
+        def __aiter__(self):
+            return self
+
+        async def __anext__(self):
+            state["pulls"] += 1
+            mine = state["pulls"]
+            for _ in range(case["susp"]):
+                await ctx.suspend(("source", mine))
+            if mine == case["fault_at"]:
+                state["raised"] = True
+                raise planned
+            if state["idx"] >= case["length"]:
+                raise StopAsyncIteration
+            state["idx"] += 1
+            return Item(0, state["idx"] - 1)
+
+    lock = Lock(ctx, "lock") if case["lock"] else None
+    children = list(a.tee(Source(), case["n"], lock=lock) if lock is not None else a.tee(Source(), case["n"]))
+    received = []
+    others = []
+
+    async def consumer(i):
+        while True:
+            try:
+                item = await children[i].__anext__()
+            except StopAsyncIteration:
+                return
+            except BaseException as exc:  # noqa: B902
+                (received if exc is planned else others).append((i, exc))
+                return
+            del item
+            if case["between"]:
+                await ctx.suspend(("between", i))
+
+    sched = Scheduler(ctx, [(f"c{i}", consumer(i)) for i in range(case["n"])], case["choices"], max_steps=4000)
+    with loop_mode(ctx, "hooks"):
+        sched.run()
+        close_orphans(ctx)
+    if sched.verdict is not None:
+        raise Violation(f"C06/tee-concurrent/{sched.verdict}", f"{case}")
+    if state["raised"] and not received:
+        raise Violation("C06/tee-concurrent/swallowed-or-replaced",
+                        f"the source raised {planned!r} at pull {case['fault_at']} but no consumer received that "
+                        f"object; other exceptions seen: {[(i, repr(e)) for i, e in others]} {case}")
+    if len(received) > 1:
+        raise Violation("C06/tee-concurrent/delivered-twice", f"{[(i) for i, _ in received]} {case}")
+    return {"evaluations": 1, "nontrivial": ["x"] if state["raised"] and case["fault_at"] >= 2 else [],
+            "labels": {"fault-raised": int(state["raised"]), "with-lock": int(case["lock"])}}
+
+
 def shards(tier):
     return [
+        Shard("tee-concurrent", check_tee_concurrent, strategy=tee_concurrent_cases(tier), n=600,
+              nontrivial=lambda c: False, thorough_mult=20),
+    ] + [
         Shard(f"close-faults-{i}", check_close_fault, strategy=close_fault_cases(tier), n=700,
               nontrivial=lambda c: False, thorough_mult=20) for i in range(4)
     ] + [
